@@ -101,19 +101,40 @@ static RunResult run_c17(const RunSpec &spec) {
             what = "parse";
             g_plan_n_ops = 0; g_plan_fault_ops.clear(); plan_ready();
             std::vector<unsigned char> bytes = small_doc(spec, NULL, quick ? 3 : 5);
+            Rng pr(hmix(run_seed_of(spec), hstr("parse")));
+            // half of the documents are damaged (error paths of the parser under allocation failure)
+            int ncor = (spec.mods.simple.count(0) || pr.chance(1, 2)) ? 0 : (int) pr.range(1, 3);
+            for (int i = 0; i < ncor && !bytes.empty(); ++i) {
+                size_t at = pr.below(bytes.size()); unsigned kind = (unsigned) pr.below(5);
+                static const char INS[] = "'\";[]{}:_#$ \n\\";
+                if (kind == 0) bytes.erase(bytes.begin() + (long) at);
+                else if (kind == 1) bytes.insert(bytes.begin() + (long) at, (unsigned char) INS[pr.below(sizeof INS - 1)]);
+                else if (kind == 2) bytes[at] = (unsigned char) INS[pr.below(sizeof INS - 1)];
+                else if (kind == 3) bytes.resize(at);
+                else { size_t n = std::min<size_t>(bytes.size() - at, 1 + pr.below(12)); std::vector<unsigned char> piece(bytes.begin() + (long) at, bytes.begin() + (long) (at + n)); bytes.insert(bytes.begin() + (long) pr.below(bytes.size()), piece.begin(), piece.end()); }
+            }
             FaultEnum fe; fe.enabled = true; fe.quick = quick; fe.prop = prop; fe.seed = run_seed_of(spec);
-            ParseOpts o; o.policy = 1; o.target = (spec.run % 4 == 0) ? 0 : 1; StreamCfg sc;
+            ParseOpts o; o.policy = pr.chance(2, 3) ? 1 : 0; o.target = (spec.run % 4 == 0) ? 0 : 1; o.max_frame_depth = (int) pr.range(-1, 1); StreamCfg sc; sc.chunk = pr.chance(1, 2) ? (size_t) pr.range(1, 64) : 0;
+            ev("C17 parse of %zu bytes (%d corruption(s)), policy=%d target=%d", bytes.size(), ncor, o.policy, o.target);
+            if (g_log.keep_text) { std::string t; for (size_t i = 0; i < bytes.size() && t.size() < 900; ++i) { unsigned char ch = bytes[i]; if (ch == '\n') t += "\\n"; else if (ch >= 0x20 && ch < 0x7f && ch != '\\') t += (char) ch; else t += strprintf("\\x%02x", ch); } ev("bytes: %s", t.c_str()); }
+            // reference: the same call with memory available
+            ParseOutcome ref = run_parse(bytes, o, sc, NULL);
+            std::string ref_dump; bool ref_dump_ok = false;
+            if (ref.cif) { try { ref_dump = canon(dump_cif(ref.cif, "C17")); ref_dump_ok = true; } catch (Violation &) { } int q = cif_destroy(ref.cif); (void) q; }
+            ev("reference: cif_parse -> %s, %zu error(s)", rc_name(ref.rc), ref.errs.size());
             ParseOutcome out; cif_tp *made = NULL;
-            ev("C17 parse of %zu bytes, target=%d", bytes.size(), o.target);
             fe.after_failed = [&](const char *, long) {
                 // a CIF newly created by a failing cif_parse must be readable, consistent and destroyable
                 if (made) { try { MCif m = dump_cif(made, "C17"); (void) m; } catch (Violation &v) { throw Violation(prop + ".unchanged", "parse:" + v.sig, "the CIF left by a cif_parse that failed for lack of memory is inconsistent: " + v.detail, -1); } int rc = cif_destroy(made); made = NULL; fe.watch_db = NULL; if (rc != CIF_OK) throw Violation(prop + ".args_valid", "cif_destroy", "the CIF left by a failed cif_parse cannot be destroyed", -1); }
             };
             int rc = fe.call("cif_parse", [&]() { if (made) { int q = cif_destroy(made); (void) q; made = NULL; } fe.watch_db = NULL; out = run_parse(bytes, o, sc, NULL); made = out.cif; fe.watch_db = made ? made->db : NULL; return out.rc; });
             ev("cif_parse -> %s after %ld failed attempts", rc_name(rc), fe.steps);
-            if (rc != CIF_OK) { if (made) { int q = cif_destroy(made); (void) q; } throw Violation(prop + ".retry", strprintf("cif_parse:%s", rc_name(rc)), strprintf("cif_parse of a well-formed document returned %s when no allocation failed", rc_name(rc)), -1); }
-            if (made) { int q = cif_destroy(made); if (q != CIF_OK) throw Violation(prop + ".args_valid", "cif_destroy", "cif_destroy failed", -1); }
-            g_stats.inc("c17.parse_steps", (uint64_t) fe.steps);
+            std::unique_ptr<Violation> bad;
+            if (rc != ref.rc) bad.reset(new Violation(prop + ".retry", strprintf("cif_parse:%s!=%s", rc_name(rc), rc_name(ref.rc)), strprintf("cif_parse returned %s on the attempt during which no allocation failed (or the failure was absorbed); with memory available the same call returns %s", rc_name(rc), rc_name(ref.rc)), -1));
+            else if (made && ref_dump_ok) { try { std::string d2 = canon(dump_cif(made, "C17")); if (d2 != ref_dump) bad.reset(new Violation(prop + ".retry", "cif_parse:content", "the CIF produced after failed attempts differs from the one produced with memory available: " + first_diff(ref_dump, d2), -1)); } catch (Violation &v) { bad.reset(new Violation(prop + ".unchanged", "parse:" + v.sig, v.detail, -1)); } }
+            if (made) { int q = cif_destroy(made); made = NULL; if (q != CIF_OK && !bad) bad.reset(new Violation(prop + ".args_valid", "cif_destroy", "cif_destroy failed", -1)); }
+            if (bad) throw *bad;
+            g_stats.inc("c17.parse_steps", (uint64_t) fe.steps); g_stats.inc(ncor ? "c17.parse_damaged" : "c17.parse_wellformed");
             fe.txm.finish();
         } else { what = "walk"; res = eng_walk_run_cfg(spec, prop, true); }
     } catch (Violation &v) {
